@@ -13,6 +13,15 @@ LEVEL_TEXT = ("Static analysis of /repo's current source (go/packages + go/ssa, 
 
 # id -> (technique, what is decided, design_ref)
 CLAIMED = {
+    "C17": ("sibling rule over the six context-aware I/O functions (discovered by signature): must-pass-through / dominance inside the watcher closure, post-dominance of close(done);wg.Wait() after the I/O call, lockset at Wait, provenance of the returned count and error",
+            "force past deadline only after ctx fired, wait, restore zero deadline of the same direction on every path, Done afterwards; no deadline manipulation outside the watcher; close+Wait on every path before the mutex is released; n is the wrapped call's n, ctx error only if n == 0; per-direction mutexes; closed test first",
+            "DESIGN.md section 3 C17"),
+    "C18": ("taint (copies), shape rule for Pipe's cross-wiring and per-end closed channel, guard rule for the returned length, mirror comparison (canonical serialisation) of the two directions of every Bridge method, must-pass reset of the reorder stack, pairing rule for Tick's hand-over on an unbuffered channel",
+            "dpipe copies, cross-wires, closes only its own end once, reports min(len) bytes; Bridge copies, treats both directions identically, empties the reorder stack after flushing it into the queue, hands over exactly the head it then removes",
+            "DESIGN.md section 3 C18"),
+    "C20": ("build-constraint partition over the full truth table of tags x GOARCH suffixes, SSA shape of the delegating definition, stand-alone type check + structural loop/argument rules for legacy files, per-configuration evaluation in the thorough tier",
+            "exactly one XorBytes per build configuration; the active one is return subtle.XORBytes(dst, a, b); legacy files: n = min, early return, arms get (dst,a,b,n), loops partition [0,n)",
+            "DESIGN.md section 3 C20"),
     "C04": ("symbolic evaluation of all acyclic paths of Check/accept as exact linear forms with store-to-load forwarding (abstract interpretation over branch literals, no concrete inputs, no solver), index-agreement of Bit/SetBit, affine mask-width check, purity (effects) of Check",
             "accepting paths carry seq<=max and newer-or-(in-window and bit clear at that distance); refusing paths carry a legitimate reason; exact fold boundaries; SetBit once at the tested distance; head moves only for newer numbers after the matching shift; word access guarded by i<n; truncation mask width >= n%64",
             "DESIGN.md section 3 C04"),
@@ -66,7 +75,7 @@ CLAIMED = {
             "DESIGN.md section 3 C19"),
 }
 
-NOT_YET = "check not built yet in this round (rules are designed in DESIGN.md section 3)"
+NOT_YET = "not claimed"
 
 checks, na = [], []
 for p in props:
